@@ -906,6 +906,23 @@ package analysis
 //@   loop 1: invariant synced(opts.Spec) && opts != nil && opts.Spec == old(opts.Spec) && opts.Spec.spec == old(opts.Spec.spec)
 //@   loop 1: invariant old(opts.flattenContext) != nil ==> opts.flattenContext == old(opts.flattenContext)
 
+// checkLocalRefs (C09, second sentence): success means that every local $ref of the index resolves in the document
+//@ fun localRefsOK(s *Spec) bool = forall k in dom(s.references.allRefs) :: s.references.allRefs[k].HasFragmentOnly ==> ptrOK(*s.references.allRefs[k].GetPointer(), box(s.spec))
+
+//@ func checkLocalRefs(opts)
+//@   requires opts != nil && opts.Spec != nil && opts.Spec.spec != nil
+//@   modifies nothing
+//@   ensures result == nil && !opts.ContinueOnError ==> localRefsOK(opts.Spec)
+//@   loop 1: invariant forall k in seen :: opts.Spec.references.allRefs[k].HasFragmentOnly ==> ptrOK(*opts.Spec.references.allRefs[k].GetPointer(), box(opts.Spec.spec))
+
+// Flatten does not go past the import of references with a local $ref that does not resolve (unless ContinueOnError)
+//@ func Flatten(opts)
+//@   aspect refcheck
+//@   requires opts.Spec != nil && opts.Spec.spec != nil && strfmt.Default != nil
+//@   modifies heaps DOC, heaps INDEX, heaps FCTX
+//@   callsite nameInlinedSchemas: !callee_opts.ContinueOnError ==> localRefsOK(callee_opts.Spec)
+//@   callsite stripPointersAndOAIGen: !callee_opts.ContinueOnError && (callee_opts.Minimal || callee_opts.Expand) ==> localRefsOK(callee_opts.Spec)
+
 //@ func nameInlinedSchemas(opts)
 //@   requires opts != nil && opts.Spec != nil && opts.Spec.spec != nil && strfmt.Default != nil
 //@   modifies heaps DOC, heaps INDEX, heaps FCTX
@@ -2614,6 +2631,14 @@ package analysis
 //@   ensures result == nil ==> failed == old(failed)
 //@   loop 1: modifies heaps DOC, ghost failed
 //@   loop 1: invariant idxKeysWF(opts.Spec) && opts.Spec.spec == old(opts.Spec.spec)
+//@   loop 1: invariant failed == old(failed)
+
+//@ func checkLocalRefs(opts)
+//@   aspect safe
+//@   requires opts != nil && opts.Spec != nil && opts.Spec.spec != nil
+//@   modifies ghost failed
+//@   ensures result == nil ==> failed == old(failed)
+//@   loop 1: modifies ghost failed
 //@   loop 1: invariant failed == old(failed)
 
 //@ func removeUnusedShared(opts)
